@@ -20,6 +20,7 @@ CONSTANTS
   FundAcct2 = FALSE
   UseBuild = FALSE
   NChanges = {1}
+  QuietW2 = FALSE
   UseDiverge = FALSE
   UseAdv = FALSE
   Scen = {1, 2, 5, 7, 8}
